@@ -14,6 +14,7 @@ from . import common
 
 SPEC = {
     "level": "exploration",
+    "level_text": "Exploration with a reference model: an independent V3000 renderer spells an abstract molecule using the format's freedoms (continuation dash at random/multiple/every offset, blank runs, keyword order, unrelated keywords, index maps, star atoms with up to 16 endpoints, explicit defaults); the reader's graph must equal the abstract molecule attribute for attribute. Explicit defaults are checked relationally so no representation is prescribed.",
     "technique": "reference-model runtime monitor on the V3000 reader: independent renderer of an abstract molecule, attribute-for-attribute comparison; relational check for explicit defaults",
     "rule": ("cases: abstract molecules (M2 organic with charges/radicals/isotopes/bond types, M3, M4, M5, D/T hydrogens) x renderings drawn from the spelling space: continuation "
              "dash at random / multiple / EVERY offset of atom, bond and COUNTS lines, blank runs 1-6, shuffled key=value order, unrelated spec keywords (CFG VAL HCOUNT STBOX INVRET "
